@@ -9,7 +9,7 @@ from .verdict import Check
 
 PROP_FILE = "Properties/C13.v"
 THEOREMS = ["C13_range_arithmetic_total", "C13_cover_sound", "C13_indent_lookup_total", "C13_result_is_covering_node",
-            "C13_refuses_erroneous"]
+            "C13_refuses_erroneous", "C13_range_total"]
 
 
 def run(tier, seed, replay=None):
@@ -18,7 +18,7 @@ def run(tier, seed, replay=None):
                "damaged (erroneous) sources: whole text, empty, single points, sub-ranges, ends past the text; distinct = distinct "
                "(source, range, width, tab); non-trivial = the source has at least 3 nodes and the call returned text")
     ck.assumptions = ["the spliced-text half (re-parses to an equivalent tree) relies on the parser, which is outside the model: decided by the oracle on every case",
-                      "converter Panic sites are covered by C05's class correspondence; here K6 compares ok / refused / panicked as well"]
+                      "C13_range_total excludes every Panic site for schema-conforming trees (swfc, evaluated on every parsed tree); K6 compares ok / refused / panicked as well"]
     ck.trusted += ["modelled, not verified: typst-syntax (parser, LinkedNode offsets), `pretty` renderer; Rust str slicing semantics restated as split_at_byte/slice"]
     proofs_ok, built = core.prepare(ck, PROP_FILE, THEOREMS)
     if not built:
@@ -36,6 +36,9 @@ def run(tier, seed, replay=None):
     for i, s in enumerate(srcs):
         for (a, b) in krange.gen_ranges(rng, s, 3 if tier == "quick" else 8):
             cs.append(([80, 20, 0][i % 3], [2, 4, 1][i % 3], a, b, s))
+    # regressions of repaired defects run first
+    cs = [(80, 2, 3, 16, "$ mat(;,;,11,,) $\n"), (80, 2, 12, 12, "/ a: // c\n\n  \n    b\n"),
+          (80, 2, 12, 14, "1. @b[b]$1$\n  \\*\n")] + cs
     if replay and isinstance(replay.get("input"), dict) and "source" in replay["input"]:
         i = replay["input"]
         cs.insert(0, (i.get("width", 80), i.get("tab", 2), i["start"], i["end"], i["source"]))
@@ -63,6 +66,11 @@ def run(tier, seed, replay=None):
     ck.extra["k6_disagreements"] = len(dis)
     ck.oblige("K6: format_source_range == Partial.format_range (class, returned range, bytes) on %d cases" % len(res), not dis,
               ("first: %r" % (dis[0]["case"][:4] + (dis[0]["case"][4][:200],),))[:600] if dis else "")
+    # hypothesis of C13_range_total: the schema clause on every well-formed tree (erroneous sources are refused before it matters)
+    sw = [d for d in res if d.get("model_swfc") is not None and d.get("class") == "ok"]
+    notsw = [d for d in sw if not d["model_swfc"]]
+    ck.oblige("hypothesis of C13_range_total: the extracted schema clause `swfc` holds on the %d trees whose range was formatted" % len(sw), not notsw,
+              ("first: %r" % (notsw[0]["case"][:4] + (notsw[0]["case"][4][:200],),))[:600] if notsw else "")
     viol = [d for d in res if d.get("c13") == "0" and not shrink.in_known_class(d, "c01")]
     known = [d for d in res if d.get("c13") == "0" and shrink.in_known_class(d, "c01")]
     ck.extra["known_class_instances"] = len(known)
